@@ -1,12 +1,14 @@
 /-
-`fqmodel`: the model/spec driver of the correspondence checks (DESIGN.md §2.1).
+`fqmodel <Cxx>`: the model/spec driver of the correspondence checks (DESIGN.md §2.1).
 Reads one case per line on stdin:   <op> <args…> => <implementation result…>
 and answers one line per case:       <spec verdict> \t <model correspondence>
 where the spec verdict is `ok` or `FAIL:<detail>` (Spec.* evaluated on what the real code returned)
-and the model correspondence is `ok` or `DIFF:<detail>` (hand model vs real code).
-Core Lean only, so that it links as a `lean_exe`.
+and the model correspondence is `ok` or `DIFF:<detail>` (hand model vs real code, on the
+projection of property Cxx). Core Lean only, so that it links as a `lean_exe`.
 -/
 import Driver.Util
+import Driver.Common
+import Driver.BuildOps
 import FastQr.Model.Version
 import FastQr.Model.Classify
 import FastQr.Spec.Capacity
@@ -14,21 +16,10 @@ import FastQr.Spec.Classify
 
 open FastQr Driver
 
-structure Verdict where
-  spec : Option String := none    -- none = ok
-  model : Option String := none
-
-def Verdict.render (v : Verdict) : String :=
-  (match v.spec with | none => "ok" | some d => "FAIL:" ++ d) ++ "\t" ++
-  (match v.model with | none => "ok" | some d => "DIFF:" ++ d)
-
 def outcomeStr : Except Model.BuildError Nat → String
   | .ok v => s!"ok {v}"
   | .error .encodedData => "err E"
   | .error .specifiedVersion => "err S"
-
-def cmp (what expected got : String) : Option String :=
-  if expected == got then none else some s!"{what}:expected[{expected}]got[{got}]"
 
 /-- `buildv <mode> <ecl> <len> <forced|-> => ok <v> | err E | err S | trap` -/
 def opBuildV (args res : List String) : Verdict :=
@@ -60,7 +51,7 @@ def opClassify (args res : List String) : Verdict :=
       model := cmp "mode" (modeStr (Model.bestEncoding inp)) r }
   | _, _ => { spec := some "bad-args" }
 
-def handle (line : String) : String :=
+def handle (prop : String) (line : String) : String :=
   let toks := (line.trimAscii.toString.splitOn " ").filter (· != "")
   match toks with
   | [] => "skip"
@@ -70,16 +61,17 @@ def handle (line : String) : String :=
       match op with
       | "buildv" => opBuildV args res
       | "classify" => opClassify args res
+      | "build" => opBuild prop args res
       | _ => { spec := some s!"unknown-op:{op}" }
     v.render
 
-partial def loop (h : IO.FS.Stream) (out : IO.FS.Stream) : IO Unit := do
+partial def loop (prop : String) (h : IO.FS.Stream) (out : IO.FS.Stream) : IO Unit := do
   let line ← h.getLine
   if line.isEmpty then return ()
-  out.putStrLn (handle line)
-  loop h out
+  out.putStrLn (handle prop line)
+  loop prop h out
 
-def main : IO Unit := do
+def main (args : List String) : IO Unit := do
   let stdin ← IO.getStdin
   let stdout ← IO.getStdout
-  loop stdin stdout
+  loop (args.headD "full") stdin stdout
